@@ -1502,6 +1502,9 @@ func (fv *FuncVerifier) execRangeFunc(st *State, env *Env, x *ast.RangeStmt, lab
 		es := fv.sortOf(ysig.Params().At(1).Type())
 		if iter.ys2.S != "" {
 			ys2 = iter.ys2
+		} else if iter.contract {
+			ys2 = fv.yielded2(iter.val, w.SeqSort(es))
+			st.Assume(App(SBool, "=", w.SeqLen(ys2), w.SeqLen(ys)))
 		} else {
 			ys2 = fv.fresh(fmt.Sprintf("ys%db", ord), w.SeqSort(es))
 			st.Assume(App(SBool, "=", w.SeqLen(ys2), w.SeqLen(ys)))
@@ -1552,10 +1555,11 @@ func (fv *FuncVerifier) execRangeFunc(st *State, env *Env, x *ast.RangeStmt, lab
 }
 
 type iterInfo struct {
-	val  Term
-	ys   Term
-	ys2  Term
-	pure bool
+	val      Term
+	ys       Term
+	ys2      Term
+	pure     bool
+	contract bool // yielded / yielded2 of val are pinned down by a /repo contract
 }
 
 // evalIterator evaluates the ranged function expression and reports what is known about what it yields.
@@ -1571,9 +1575,9 @@ func (fv *FuncVerifier) evalIterator(st *State, env *Env, e ast.Expr) iterInfo {
 				fv.externUsed[full] = true
 				return h(fv, st, env, call)
 			}
-			if fi, ok := fv.prog.ByObj[fn.Origin()]; ok && fi.Contr != nil && fi.Contr.Has("yields", 0) {
+			if fi, ok := fv.prog.ByObj[fn.Origin()]; ok && fi.Contr != nil && (fi.Contr.Has("yields", 0) || (returnedLit(fv, fi) > 0 && fi.Contr.Has("yields", returnedLit(fv, fi)))) {
 				v := fv.evalCall(st, env, call)
-				return iterInfo{val: v[0], pure: true}
+				return iterInfo{val: v[0], pure: true, contract: true}
 			}
 		}
 	}
